@@ -17,10 +17,13 @@ package c20
 
 import (
 	"fmt"
+	"os"
 	"runtime"
 	"sort"
 	"strings"
 	"time"
+
+	"github.com/robertkrimen/otto"
 
 	"verif/mc/engine"
 )
@@ -45,7 +48,7 @@ func init() {
 		Families: fams,
 		Assumptions: []string{
 			"the cooperative scheduler decides result-independence and Script/Program immutability at the granularity of evaluation steps; interleavings INSIDE one built-in call are not enumerated",
-			"the 'no data race' half of the verdict (family race) comes from the Go race detector's happens-before analysis over the accesses actually executed by the free-running -race build of the same harness bodies (GOMAXPROCS=16, real goroutines, no scheduler); it is NOT an enumeration result",
+			"the 'no data race' half of the verdict (family RACE) comes from the Go race detector's happens-before analysis over the accesses actually executed by the free-running -race build of the same harness bodies (GOMAXPROCS=16, real goroutines, no scheduler); it is NOT an enumeration result",
 			"race pass: every process start runs its first round cold (no otto code executed before the goroutines start) so that lazily initialised package-level state is first touched concurrently; happens-before edges that library code adds on its own (sync.Pool in fmt/regexp, the math/rand lock) can order two conflicting accesses and hide them from the detector in a given run",
 			"mutable package-level state that is neither reachable from a runtime by reflection nor touched by any of the harness bodies is outside the bound",
 			"Go func values (closures) are opaque to reflection: sharing through captured variables is covered only behaviourally (solo-log oracle, race detector)",
@@ -243,7 +246,11 @@ func bodySteps() map[int]int {
 	return out
 }
 
-const maxViolationsPerCase = 2
+// exploration of a case stops after its first violating schedule and of a
+// family after maxViolationsPerFamily (per worker): a real defect fails
+// thousands of schedules and one replayable witness per case is enough
+const maxViolationsPerCase = 1
+const maxViolationsPerFamily = 3
 
 func runScenario(r *engine.Run, scenario string) {
 	runtime.GOMAXPROCS(1)
@@ -256,7 +263,14 @@ func runScenario(r *engine.Run, scenario string) {
 	pl := plans(scenario, r.Thorough(), steps)
 	maxBound := 0
 	completed := true
+	famViolations := 0
+	only := os.Getenv("MC_C20_ONLY") // development aid: restrict to cases whose name contains this
 	for _, p := range pl {
+		if only != "" && !strings.Contains(p.spec.Name(), only) {
+			r.Cap("MC_C20_ONLY set: cases filtered")
+			completed = false
+			continue
+		}
 		if p.bound > maxBound {
 			maxBound = p.bound
 		}
@@ -265,8 +279,17 @@ func runScenario(r *engine.Run, scenario string) {
 			completed = false
 			break
 		}
-		if !exploreCase(r, p, solo) {
+		if famViolations >= maxViolationsPerFamily {
+			r.Cap(fmt.Sprintf("exploration stopped after %d violating cases", famViolations))
 			completed = false
+			break
+		}
+		ok, bad := exploreCase(r, p, solo)
+		if !ok {
+			completed = false
+		}
+		if bad {
+			famViolations++
 		}
 	}
 	if completed {
@@ -289,16 +312,16 @@ func runScenario(r *engine.Run, scenario string) {
 // preemptions. Schedules without preemption are executed by every worker (and
 // counted by shard 0); the subtree below each first preemption is owned by one
 // worker (r.Mine on the running index of first-preemption nodes).
-func exploreCase(r *engine.Run, p plan, solo *soloCache) bool {
+func exploreCase(r *engine.Run, p plan, solo *soloCache) (complete bool, violated bool) {
 	sp := p.spec
 	want, ok := solo.get(r, sp)
 	if !ok {
-		return false
+		return false, false
 	}
 	name := sp.Name()
 	caseName := name[len(sp.Scenario)+1:]
 	violations := 0
-	complete := true
+	complete = true
 	count0 := r.Shard == 0 || r.NShards <= 1
 
 	var rec func(prefix []int, cost int, owned bool)
@@ -362,8 +385,9 @@ func exploreCase(r *engine.Run, p plan, solo *soloCache) bool {
 	rec(nil, 0, false)
 	if violations >= maxViolationsPerCase {
 		r.Note(fmt.Sprintf("%s: exploration of this case stopped after %d violating schedules", name, violations))
+		complete = false
 	}
-	return complete
+	return complete, violations > 0
 }
 
 // report re-executes a failing schedule twice from its full choice vector and
@@ -638,6 +662,15 @@ func runSelfCheck(r *engine.Run) {
 	}
 	if StructHash(s1) == StructHash(s3) {
 		r.HarnessError("structural hash does not distinguish different scripts")
+	}
+	// the hash terminates and is deterministic on a cyclic graph with maps (a
+	// whole runtime); two fresh runtimes are structurally identical
+	va, vb := otto.New(), otto.New()
+	if ha, hb := StructHash(va), StructHash(vb); ha != StructHash(va) || ha != hb {
+		r.HarnessError("structural hash of a whole runtime is not deterministic")
+	}
+	if _, err := va.Run("var changed = 1"); err != nil || StructHash(va) == StructHash(vb) {
+		r.HarnessError("structural hash does not see a new global variable")
 	}
 	// the region walker finds a deliberately shared mutable object
 	type box struct{ p *[]int }
